@@ -28,7 +28,8 @@ TIERS = {
 READS = [(50, 2), (100, 5), (100, 4), (150, 5), (250, 10)]
 
 
-SCENARIOS = ["random", "short_reads_clustered_indel", "ambiguous_mnp", "random", "edge_variant", "structural"]
+SCENARIOS = ["random", "short_reads_clustered_indel", "ambiguous_mnp", "random", "edge_variant", "structural",
+             "repeat_insertions", "multiallelic_het"]
 
 
 def gen_plan(rng, tier, i, seed):
@@ -48,6 +49,11 @@ def gen_plan(rng, tier, i, seed):
         o.update(ambiguous=True, kinds=["mnp", "mnp", "snp", "ins", "del"], gene_len=420)
     elif scen == "edge_variant":
         o.update(edge_variant=rng.choice(["last", "first", "both"]))
+    elif scen == "repeat_insertions":
+        L, step = rng.choice([(100, 5), (150, 5)])
+        o.update(repeat_ins=True, gene_len=rng.choice([480, 600]))
+    elif scen == "multiallelic_het":
+        o.update(multiallelic=True, ambiguous=False, n_major=4)
     elif scen == "structural":
         o.update(pseudo=True, deletion=True, lfusion=rng.random() < 0.7, rfusion=rng.random() < 0.7)
     world = W.gen_world(rng, 1, [o], dict(L=L, step=step), margin=max(200, L + 60))
@@ -66,6 +72,16 @@ def gen_plan(rng, tier, i, seed):
         units = [{"type": "normal", "allele": pick}, {"type": "normal", "allele": pick}]
         if rng.random() < 0.3:
             units.append({"type": "extra", "allele": pick})
+    elif scen == "repeat_insertions" and g.get("cis_pair"):
+        both = [a["name"] for a in normal if set(g["cis_pair"]) <= set(a["vars"])]
+        only = [a["name"] for a in normal if g["cis_pair"][0] in a["vars"] and g["cis_pair"][1] not in a["vars"]]
+        units = [{"type": "normal", "allele": both[0]},
+                 {"type": "normal", "allele": rng.choice(only + [a["name"] for a in normal])}]
+    elif scen == "multiallelic_het" and WL.multiallelic_pair(g):
+        a, b = WL.multiallelic_pair(g)
+        units = [{"type": "normal", "allele": a}, {"type": "normal", "allele": b}]
+        if rng.random() < 0.3:
+            units.append({"type": "extra", "allele": rng.choice([a, b])})
     elif scen == "edge_variant":
         edge = [a["name"] for a in normal if any(g["variants"][v].get("edge") for v in a["vars"])]
         if edge:
